@@ -3,6 +3,7 @@ import PewProofs.CsvTime
 import PewProofs.CsvDigits
 import PewProofs.CsvDirNames
 import PewProofs.CsvDirPost
+import PewProofs.CsvDirHist
 
 /-! # C04 — property theorems (statements only depend on `PewModel.CsvDir`, plus `Covers`, `nameForm` and `strLe` of the proofs) -/
 namespace Pew.CsvDir
@@ -472,6 +473,86 @@ theorem load_eq_spec_generic (isNan : α → Bool) (rp : Vendor → Image α →
     load isNan rp .generic timegm listing π = specLoad isNan rp .generic listing :=
   load_eq_spec_vendor isNan rp .generic listing π hπ hd (fun _ _ => rfl) hwf hhdr
 
+/-- **TOFWERK, any conversion of the stamp.**  The key the code computes is `tkey` of the six numbers read
+from the FILE NAME - a function of the stamp text and of nothing else, whatever the conversion.  If `tkey`
+is strictly increasing in the stamp on valid stamps, it compares exactly like the stamp fields … -/
+theorem monotone_key_order (tkey : List Nat → Int)
+    (hmono : ∀ f g, validStampB f = true → validStampB g = true →
+      keyLt (f.map (fun (n : Nat) => (n : Int))) (g.map (fun (n : Nat) => (n : Int))) = true → tkey f < tkey g)
+    (f g : List Nat) (hf : validStampB f = true) (hg : validStampB g = true) :
+    keyLe [tkey f] [tkey g]
+      = keyLe (f.map (fun (n : Nat) => (n : Int))) (g.map (fun (n : Nat) => (n : Int))) := by
+  cases h1 : keyLt (f.map (fun (n : Nat) => (n : Int))) (g.map (fun (n : Nat) => (n : Int))) with
+  | true =>
+    have := hmono f g hf hg h1
+    rw [keyLe_of_keyLt h1]
+    simp [keyLe, this]
+  | false =>
+    cases h2 : keyLt (g.map (fun (n : Nat) => (n : Int))) (f.map (fun (n : Nat) => (n : Int))) with
+    | true =>
+      have := hmono g f hg hf h2
+      have h3 : keyLe (f.map (fun (n : Nat) => (n : Int))) (g.map (fun (n : Nat) => (n : Int))) = false := by
+        simpa [keyLt] using h2
+      rw [h3]
+      have h4 : ¬ tkey f < tkey g := by omega
+      have h5 : ¬ tkey f = tkey g := by omega
+      simp [keyLe, h4, h5]
+    | false =>
+      have e1 : keyLe (g.map (fun (n : Nat) => (n : Int))) (f.map (fun (n : Nat) => (n : Int))) = true := by
+        simpa [keyLt] using h1
+      have e2 : keyLe (f.map (fun (n : Nat) => (n : Int))) (g.map (fun (n : Nat) => (n : Int))) = true := by
+        simpa [keyLt] using h2
+      have hfg : f = g :=
+        (List.map_inj_right (f := fun (n : Nat) => (n : Int)) (fun x y hxy => Int.ofNat.inj hxy)).mp
+          (keyLe_antisymm _ _ e2 e1)
+      rw [e2, hfg]
+      simp [keyLe]
+
+/-- **… and the TOFWERK import is the specification for EVERY such conversion** (`calendar.timegm`, a naive
+`datetime`, seconds since any epoch, the zero-padded stamp read as a number): the result cannot depend on
+anything the conversion does not - the time zone of the importing machine enters only through a
+conversion that consults it, and then only if that conversion is not increasing in the stamp (as
+`time.mktime` is not, across a DST transition: the defect repaired by 61edfa9). -/
+theorem load_eq_spec_tofwerk_monotone_key (isNan : α → Bool) (rp : Vendor → Image α → P) (tkey : List Nat → Int)
+    (hmono : ∀ f g, validStampB f = true → validStampB g = true →
+      keyLt (f.map (fun (n : Nat) => (n : Int))) (g.map (fun (n : Nat) => (n : Int))) = true → tkey f < tkey g)
+    (listing : List (Entry α)) (π : List Nat)
+    (hπ : Covers (accepted .tofwerk listing).length π)
+    (hd : (accepted .tofwerk listing).Pairwise (fun a b => acqKey .tofwerk a.name ≠ acqKey .tofwerk b.name))
+    (hstamp : ∀ e ∈ accepted .tofwerk listing, validStampB (stampFields e.name.toList) = true)
+    (hwf : ∀ e ∈ accepted .tofwerk listing, ∀ row ∈ e.line.rows, row.length = e.line.names.length)
+    (hhdr : ∀ a ∈ accepted .tofwerk listing, ∀ b ∈ accepted .tofwerk listing, a.line.names = b.line.names) :
+    load isNan rp .tofwerk tkey listing π = specLoad isNan rp .tofwerk listing := by
+  apply load_eq_spec isNan rp .tofwerk tkey listing π hπ hd _ _ hwf hhdr
+  · simp only [keysDefined, List.all_map, List.all_eq_true, Function.comp]
+    intro e he
+    exact strptimeOk_of_valid _ (hstamp e he)
+  · intro a ha b hb
+    exact monotone_key_order tkey hmono _ _ (hstamp a ha) (hstamp b hb)
+
+/-- two conversions that are both increasing in the stamp import every such directory identically: the
+import of the TOFWERK layout is independent of HOW the stamp is turned into a number -/
+theorem tofwerk_import_independent_of_conversion (isNan : α → Bool) (rp : Vendor → Image α → P)
+    (tkey₁ tkey₂ : List Nat → Int)
+    (h₁ : ∀ f g, validStampB f = true → validStampB g = true →
+      keyLt (f.map (fun (n : Nat) => (n : Int))) (g.map (fun (n : Nat) => (n : Int))) = true → tkey₁ f < tkey₁ g)
+    (h₂ : ∀ f g, validStampB f = true → validStampB g = true →
+      keyLt (f.map (fun (n : Nat) => (n : Int))) (g.map (fun (n : Nat) => (n : Int))) = true → tkey₂ f < tkey₂ g)
+    (listing : List (Entry α)) (π₁ π₂ : List Nat)
+    (hπ₁ : Covers (accepted .tofwerk listing).length π₁) (hπ₂ : Covers (accepted .tofwerk listing).length π₂)
+    (hd : (accepted .tofwerk listing).Pairwise (fun a b => acqKey .tofwerk a.name ≠ acqKey .tofwerk b.name))
+    (hstamp : ∀ e ∈ accepted .tofwerk listing, validStampB (stampFields e.name.toList) = true)
+    (hwf : ∀ e ∈ accepted .tofwerk listing, ∀ row ∈ e.line.rows, row.length = e.line.names.length)
+    (hhdr : ∀ a ∈ accepted .tofwerk listing, ∀ b ∈ accepted .tofwerk listing, a.line.names = b.line.names) :
+    load isNan rp .tofwerk tkey₁ listing π₁ = load isNan rp .tofwerk tkey₂ listing π₂ := by
+  rw [load_eq_spec_tofwerk_monotone_key isNan rp tkey₁ h₁ listing π₁ hπ₁ hd hstamp hwf hhdr,
+    load_eq_spec_tofwerk_monotone_key isNan rp tkey₂ h₂ listing π₂ hπ₂ hd hstamp hwf hhdr]
+
+/-- `timegm` is such a conversion, and so is the stamp read as the decimal number `YYYYMMDDhhmmss` -/
+example : ∀ f g, validStampB f = true → validStampB g = true →
+    keyLt (f.map (fun (n : Nat) => (n : Int))) (g.map (fun (n : Nat) => (n : Int))) = true → timegm f < timegm g :=
+  fun f g hf hg h => timegm_strictly_monotone f g hf hg h
+
 /-- a TOFWERK directory with a stamp `time.strptime` rejects is not imported at all: `ValueError` -/
 theorem load_raises_on_bad_stamp (isNan : α → Bool) (rp : Vendor → Image α → P) (tkey : List Nat → Int)
     (listing : List (Entry α)) (π : List Nat) (e : Entry α) (he : e ∈ accepted .tofwerk listing)
@@ -798,6 +879,115 @@ theorem load_cell_vendor (isNan : α → Bool) (rp : Vendor → Image α → P) 
     rw [specImage_cell _ _ _ _ hrect, List.getElem?_map, hk]
     rfl
 
+/-! ## histories of calls: every import is the import of the directory as it is on disk at that call
+
+`World` = the directories by path and the option objects the caller holds; a history is any list of
+`Call`s (directories written and rewritten, option objects built, obtained from `option_for_path`,
+edited by the caller, imports with and without an explicit option).  Nothing an earlier call did - to
+the same path, to another one, with the same option object - is visible in what an import returns. -/
+
+/-- **The directory an import sees is what the last write to its path left there** (or what was
+there before the history began). -/
+theorem history_dir_is_last_write (isNan : α → Bool) (rp : Vendor → Image α → P) (tkey : List Nat → Int)
+    (w : World α) (pre : List (Call α)) (p : Nat) :
+    (exec isNan rp tkey w pre).fs p = (lastWrite p pre).getD (w.fs p) :=
+  exec_fs isNan rp tkey w pre p
+
+/-- **`load(path, full=True)` at any point of any history** returns exactly what the import of the
+directory now at `path`, alone, returns: the vendor is detected from that directory, nothing else of the
+world enters. -/
+theorem history_auto_import (isNan : α → Bool) (rp : Vendor → Image α → P) (tkey : List Nat → Int)
+    (w : World α) (pre post : List (Call α)) (p : Nat) (π : List Nat) :
+    (trace isNan rp tkey w (pre ++ .importAuto p π :: post))[pre.length]?
+      = some (some (load isNan rp (autodetect ((exec isNan rp tkey w pre).fs p)) tkey
+          ((exec isNan rp tkey w pre).fs p) π)) := by
+  rw [trace_at]
+  simp only [step, optionForPath, loadO_mkOpt]
+
+/-- **An option object survives every call that is not the caller's own edit of it**: imports through
+it (`load` assigns to none of its attributes), imports through other objects, directory writes, new
+objects. -/
+theorem history_held_option_unchanged (isNan : α → Bool) (rp : Vendor → Image α → P) (tkey : List Nat → Int)
+    (w : World α) (cs : List (Call α)) (i : Nat) (o : Opt) (hi : w.opts[i]? = some o)
+    (hc : ∀ c ∈ cs, ∀ f, c ≠ .editOpt i f) : (exec isNan rp tkey w cs).opts[i]? = some o :=
+  exec_opts isNan rp tkey w cs i o hi hc
+
+/-- **`load(path, option=o, full=True)` with an object `o = <Vendor>Option()` built earlier in the
+history**, after any calls `mid` that are not edits of `o` (imports of other directories through `o`
+included): the import of the directory now at `path`, alone, with a new option of that class. -/
+theorem history_explicit_import (isNan : α → Bool) (rp : Vendor → Image α → P) (tkey : List Nat → Int)
+    (w : World α) (pre mid post : List (Call α)) (v : Vendor) (p : Nat) (π : List Nat)
+    (hmid : ∀ c ∈ mid, ∀ f, c ≠ .editOpt (exec isNan rp tkey w pre).opts.length f) :
+    (trace isNan rp tkey w
+        (pre ++ .newOpt v :: (mid ++ .importWith (exec isNan rp tkey w pre).opts.length p π :: post)))[pre.length + 1 + mid.length]?
+      = some (some (load isNan rp v tkey ((exec isNan rp tkey w (pre ++ .newOpt v :: mid)).fs p) π)) := by
+  have hl : (pre ++ .newOpt v :: mid).length = pre.length + 1 + mid.length := by simp; omega
+  have happ : pre ++ .newOpt v :: (mid ++ .importWith (exec isNan rp tkey w pre).opts.length p π :: post)
+      = (pre ++ .newOpt v :: mid) ++ .importWith (exec isNan rp tkey w pre).opts.length p π :: post := by simp
+  rw [happ, ← hl, trace_at]
+  have hopt : (exec isNan rp tkey w (pre ++ .newOpt v :: mid)).opts[(exec isNan rp tkey w pre).opts.length]? = some (mkOpt v) := by
+    rw [exec_append]
+    simp only [exec]
+    apply exec_opts _ _ _ _ _ _ _ _ hmid
+    simp [step]
+  simp only [step, hopt, loadO_mkOpt]
+
+/-- the same with `o = option_for_path(q)` obtained earlier: `o` has the class detected from the
+directory that was at `q` THEN; the import is the import of the directory now at `path` alone with a
+new option of that class -/
+theorem history_detected_import (isNan : α → Bool) (rp : Vendor → Image α → P) (tkey : List Nat → Int)
+    (w : World α) (pre mid post : List (Call α)) (q p : Nat) (π : List Nat)
+    (hmid : ∀ c ∈ mid, ∀ f, c ≠ .editOpt (exec isNan rp tkey w pre).opts.length f) :
+    (trace isNan rp tkey w
+        (pre ++ .detect q :: (mid ++ .importWith (exec isNan rp tkey w pre).opts.length p π :: post)))[pre.length + 1 + mid.length]?
+      = some (some (load isNan rp (autodetect ((exec isNan rp tkey w pre).fs q)) tkey
+          ((exec isNan rp tkey w (pre ++ .detect q :: mid)).fs p) π)) := by
+  have hl : (pre ++ .detect q :: mid).length = pre.length + 1 + mid.length := by simp; omega
+  have happ : pre ++ .detect q :: (mid ++ .importWith (exec isNan rp tkey w pre).opts.length p π :: post)
+      = (pre ++ .detect q :: mid) ++ .importWith (exec isNan rp tkey w pre).opts.length p π :: post := by simp
+  rw [happ, ← hl, trace_at]
+  have hopt : (exec isNan rp tkey w (pre ++ .detect q :: mid)).opts[(exec isNan rp tkey w pre).opts.length]?
+      = some (mkOpt (autodetect ((exec isNan rp tkey w pre).fs q))) := by
+    rw [exec_append]
+    simp only [exec]
+    apply exec_opts _ _ _ _ _ _ _ _ hmid
+    simp [step, optionForPath]
+  simp only [step, hopt, loadO_mkOpt]
+
+/-- **The property for call `k` of a history, auto-detected option.**  If the directory `d` now at the
+path (the last write to it, `history_dir_is_last_write`) has - for the layout `v` detected from it -
+accepted names in the vendor's form with pairwise distinct acquisition keys and tables as
+`np.genfromtxt` returns them, and every reader task completes, the call returns the pointwise
+specification of `d`: whatever was imported, written, built or edited before. -/
+theorem history_auto_import_eq_spec (isNan : α → Bool) (rp : Vendor → Image α → P)
+    (w : World α) (pre post : List (Call α)) (p : Nat) (π : List Nat) (d : List (Entry α)) (v : Vendor)
+    (hdir : (exec isNan rp timegm w pre).fs p = d) (hv : autodetect d = v)
+    (hπ : Covers (accepted v d).length π)
+    (hd : (accepted v d).Pairwise (fun a b => acqKey v a.name ≠ acqKey v b.name))
+    (hform : ∀ e ∈ accepted v d, nameForm v e.name = true)
+    (hwf : ∀ e ∈ accepted v d, ∀ row ∈ e.line.rows, row.length = e.line.names.length)
+    (hhdr : ∀ a ∈ accepted v d, ∀ b ∈ accepted v d, a.line.names = b.line.names) :
+    (trace isNan rp timegm w (pre ++ .importAuto p π :: post))[pre.length]?
+      = some (some (specLoad isNan rp v d)) := by
+  rw [history_auto_import, hdir, hv, load_eq_spec_vendor isNan rp v d π hπ hd hform hwf hhdr]
+
+/-- **The property for call `k` of a history, explicit option object** built earlier (`<Vendor>Option()`)
+and not edited by the caller since, whatever else was done with it. -/
+theorem history_explicit_import_eq_spec (isNan : α → Bool) (rp : Vendor → Image α → P)
+    (w : World α) (pre mid post : List (Call α)) (v : Vendor) (p : Nat) (π : List Nat) (d : List (Entry α))
+    (hmid : ∀ c ∈ mid, ∀ f, c ≠ .editOpt (exec isNan rp timegm w pre).opts.length f)
+    (hdir : (exec isNan rp timegm w (pre ++ .newOpt v :: mid)).fs p = d)
+    (hπ : Covers (accepted v d).length π)
+    (hd : (accepted v d).Pairwise (fun a b => acqKey v a.name ≠ acqKey v b.name))
+    (hform : ∀ e ∈ accepted v d, nameForm v e.name = true)
+    (hwf : ∀ e ∈ accepted v d, ∀ row ∈ e.line.rows, row.length = e.line.names.length)
+    (hhdr : ∀ a ∈ accepted v d, ∀ b ∈ accepted v d, a.line.names = b.line.names) :
+    (trace isNan rp timegm w
+        (pre ++ .newOpt v :: (mid ++ .importWith (exec isNan rp timegm w pre).opts.length p π :: post)))[pre.length + 1 + mid.length]?
+      = some (some (specLoad isNan rp v d)) := by
+  rw [history_explicit_import isNan rp timegm w pre mid post v p π hmid, hdir,
+    load_eq_spec_vendor isNan rp v d π hπ hd hform hwf hhdr]
+
 /-! ## non-vacuity -/
 
 section examples
@@ -907,6 +1097,45 @@ example : (post (fun (x : Option Int) => x.isNone) (fun _ img => img.names) .ldr
 
 example : validStampB (stampFields "IMG_2021.03.28-02h30m00s_AS.csv".toList) = true := by decide
 example : validStampB [2020, 2, 29, 23, 59, 59] = true ∧ validStampB [2021, 2, 29, 0, 0, 0] = false := by decide
+
+/-- a history: an LDR directory imported through a held option object, the SAME path rewritten as a Nu
+directory and imported without an option, the caller edits the held object, the path is imported again,
+and once more through a new object: every import returns the specification of the directory then on disk -/
+def exWorld : World Int := { fs := fun _ => [], opts := [] }
+
+def exHist : List (Call Int) :=
+  [ .write 0 exLdr, .newOpt .ldr, .importWith 0 0 [3, 2, 1, 0], .write 0 exDir, .importAuto 0 [0, 1, 2],
+    .editOpt 0 (fun o => { o with dropNames := ["A"], dropNanCols := false }), .importAuto 0 [2, 1, 0],
+    .newOpt .nu, .importWith 1 0 [1, 0, 2] ]
+
+/-- call 2 (explicit object built by call 1, directory written by call 0) and call 4 (no option, the path
+rewritten by call 3): all hypotheses of the two history theorems hold -/
+example : (trace (fun _ => false) (fun (_ : Vendor) (_ : Image Int) => ()) timegm exWorld exHist)[2]?
+    = some (some (specLoad (fun _ => false) (fun _ _ => ()) .ldr exLdr)) :=
+  history_explicit_import_eq_spec (fun _ => false) (fun _ _ => ()) exWorld [.write 0 exLdr] [] (exHist.drop 3) .ldr 0
+    [3, 2, 1, 0] exLdr (by intro c hc; cases hc) rfl
+    (by intro i hi; have h4 : (accepted .ldr exLdr).length = 4 := by decide
+        rw [h4] at hi
+        have : i = 0 ∨ i = 1 ∨ i = 2 ∨ i = 3 := by omega
+        rcases this with h | h | h | h <;> subst h <;> simp)
+    (by decide) (by intro e _; rfl) (by decide) (by decide)
+
+example : (trace (fun _ => false) (fun (_ : Vendor) (_ : Image Int) => ()) timegm exWorld exHist)[4]?
+    = some (some (specLoad (fun _ => false) (fun _ _ => ()) .nu exDir)) :=
+  history_auto_import_eq_spec (fun _ => false) (fun _ _ => ()) exWorld (exHist.take 4) (exHist.drop 5) 0
+    [0, 1, 2] exDir .nu rfl (by decide)
+    (by intro i hi; have h3 : (accepted .nu exDir).length = 3 := by decide
+        rw [h3] at hi
+        have : i = 0 ∨ i = 1 ∨ i = 2 := by omega
+        rcases this with h | h | h <;> subst h <;> simp)
+    (by decide) (by decide) (by decide) (by decide)
+
+example : (exec (fun _ => false) (fun (_ : Vendor) (_ : Image Int) => ()) timegm exWorld (exHist.take 4)).fs 0 = exDir
+    ∧ lastWrite 0 (exHist.take 4) = some exDir ∧ lastWrite 0 (exHist.take 3) = some exLdr
+    ∧ lastWrite 1 exHist = none := by decide
+
+/-- the hypothesis `hmid` of `history_explicit_import`: between `.newOpt .ldr` and its use no call edits object 0 -/
+example : ∀ c ∈ ([] : List (Call Int)), ∀ f, c ≠ .editOpt 0 f := by intro c hc; cases hc
 
 end examples
 
